@@ -166,3 +166,20 @@ def finish(ctx, t0, seed, extract_info, explanation, not_decided, assumptions):
         ctx.prop, len(obl), len([o for o in obl if o['verdict'] == 'ok']), len(ctx.findings) - len(unknown),
         time.time() - t0))
     return 0
+
+
+def run_module(mod, ctx):
+    """runs a property module; a rule that raises on a shape it cannot interpret fails closed (like a missing anchor)"""
+    import os
+    import traceback
+    try:
+        mod.run(ctx)
+    except SystemExit:
+        raise
+    except Exception as e:
+        tb = traceback.extract_tb(e.__traceback__)
+        where = '%s:%d in %s' % (os.path.basename(tb[-1].filename), tb[-1].lineno, tb[-1].name)
+        ctx.rule('RULE-CRASH', 'a rule could not interpret the shape of the code it is anchored in')
+        ctx.fail('RULE-CRASH', '<crate>', 'rule-evaluation', 'ANCHOR-MISSING: rule code raised %s: %s at %s - the '
+                 'construct the rule reads has a shape the rule does not recognise; remaining rules of this '
+                 'property were not evaluated' % (type(e).__name__, e, where))
